@@ -533,6 +533,9 @@ class Pipeline:
 
         cache = self._current_cache()
         use_cache = (func.cache and cache is not None) or task_graph() is not None
+        if use_cache and any(k in self.output_to_func for k in flat_scope_kwargs):
+            # An intermediate value was supplied: the root arguments no longer determine the result
+            use_cache = False
         root_args = self.root_args(output_name)
         result_from_cache = False
         if use_cache:
